@@ -3,6 +3,7 @@ package bytesize
 import (
 	"errors"
 	"fmt"
+	"math"
 	"regexp"
 	"strconv"
 	"strings"
@@ -80,11 +81,19 @@ func Parse(str string) (ByteSize, error) {
 		if err != nil {
 			return 0, errParse
 		}
-		return ByteSize(val * float64(multiplier)), nil
+		res := val * float64(multiplier)
+		// ByteSize is an int64: anything from 2^63 up would wrap around
+		if res >= math.MaxInt64 {
+			return 0, errParse
+		}
+		return ByteSize(res), nil
 	}
 
 	val, err := strconv.ParseUint(r[1], 10, 64)
 	if err != nil {
+		return 0, errParse
+	}
+	if val > uint64(math.MaxInt64)/uint64(multiplier) {
 		return 0, errParse
 	}
 	return ByteSize(val) * multiplier, nil
